@@ -128,11 +128,10 @@ func runSeq(f []string) string {
 						break
 					}
 				}
-				if x.ok && lastUnl {
+				// a token "now" of an unlimited part (its start time, when still ahead of the clock, is
+				// an ordinary time)
+				if x.ok && lastUnl && !x.t.Before(w1) && !x.t.After(w2) {
 					x.u = true
-					if x.t.Before(w1) || x.t.After(w2) {
-						x.pk = "badu"
-					}
 				}
 			case 'L':
 				x.k = top.Left()
@@ -320,6 +319,7 @@ wait:
 		}()
 	}
 	// which leaf produced the value a goroutine returned: its last leaf-level Next before the return
+	wallEnd := time.Now().UnixNano()
 	lastLeaf := map[int]int{}
 	var toks []int64
 	nu := 0
@@ -347,7 +347,7 @@ wait:
 		case 'N':
 			lastLeaf[e.g] = e.leaf
 		case 'r':
-			u := e.ok && lastLeaf[e.g] >= 0 && b.leaves[lastLeaf[e.g]].unl
+			u := e.ok && lastLeaf[e.g] >= 0 && b.leaves[lastLeaf[e.g]].unl && e.t >= wall0.UnixNano() && e.t <= wallEnd
 			rets = append(rets, ret{e.g, e.t, e.ok, u})
 			if !u && (!haveMin || e.t < minT) {
 				minT, haveMin = e.t, true
@@ -674,6 +674,9 @@ func gen(r *vh.Rand, tier string) []string {
 			stripShortUnl(t)
 		}
 		fillTables(t)
+		if !explicit {
+			fixSelfStartUnl(t, 0)
+		}
 		tok, _ := countTokens(t)
 		n := tok + r.Range(1, 6)
 		if n > 80 {
@@ -700,6 +703,9 @@ func gen(r *vh.Rand, tier string) []string {
 			stripShortUnl(t)
 		}
 		fillTables(t)
+		if !explicit {
+			fixSelfStartUnl(t, 0)
+		}
 		if !explicit {
 			fl := firstLeaf(t)
 			ok := fl != nil && ((fl.kind == "once" && fl.p[0] > 0) || ((fl.kind == "const" || fl.kind == "line") && len(fl.tbl) > 0) || (fl.kind == "unl") || (fl.kind == "istep" && fl.p[0] > 0))
@@ -800,6 +806,51 @@ func bumpTinyUnl(n *node) {
 	if n.kind == "unl" && n.p[0] < 1000000000 {
 		n.p[0] = 1000000000
 	}
+}
+
+// durOf: total duration of a (sub)tree, used to place unlimited parts in self-start cases
+func durOf(n *node) int64 {
+	switch n.kind {
+	case "once":
+		return 0
+	case "const", "unl":
+		return n.p[len(n.p)-1]
+	case "line":
+		return n.p[2]
+	case "istep":
+		var k int64
+		if n.p[2] > 0 {
+			for i := n.p[0] + n.p[2]; i <= n.p[1]; i += n.p[2] {
+				k++
+			}
+		}
+		return k * n.p[3]
+	case "step":
+		if len(n.kids) == 1 {
+			return durOf(n.kids[0])
+		}
+		return 0
+	}
+	var d int64
+	for _, k := range n.kids {
+		d += durOf(k)
+	}
+	return d
+}
+
+// After a self-start the clock is "now": an unlimited part whose start lies a few ms ahead would
+// answer its start or the clock depending on real timing.  Such parts become once(1).
+func fixSelfStartUnl(n *node, before int64) int64 {
+	if n.kind == "comp" {
+		for _, k := range n.kids {
+			before = fixSelfStartUnl(k, before)
+		}
+		return before
+	}
+	if n.kind == "unl" && before > 0 && before < 400000000 {
+		n.kind, n.p = "once", []int64{1}
+	}
+	return before + durOf(n)
 }
 
 func stripShortUnl(n *node) {
